@@ -72,12 +72,14 @@ class TwoTimeBathCorrelations(BaseAPIClass):
             + "process tensor or given as an argument."
 
         self._process_tensor = process_tensor
+        if initial_state is not None:
+            initial_state = np.array(initial_state) # own copy
         self._initial_state = initial_state
 
         if system_correlations is None:
             self._system_correlations = np.array([[]], dtype=NpDtype)
         else:
-            self._system_correlations = system_correlations
+            self._system_correlations = np.array(system_correlations)
         self._temp = bath.correlations.temperature
         self._bath_correlations = {}
         super().__init__(name, description)
